@@ -13,6 +13,12 @@ Theorem decode_encode : forall f v bs,
   wf_fmt f -> encode f v = Ok bs -> decode f bs = Ok (v, []).
 Proof. exact decode_encode_top. Qed.
 
+(* hence distinct values never share an encoding: an absent list (None), an empty list and a
+   one-element list, or an absent and an empty string, stay distinct on the wire *)
+Theorem encode_injective : forall f v1 v2 bs,
+  wf_fmt f -> encode f v1 = Ok bs -> encode f v2 = Ok bs -> v1 = v2.
+Proof. exact encode_injective_top. Qed.
+
 (* ... and, for self-delimiting formats, whatever follows the encoding is left untouched *)
 Theorem decode_encode_delim : forall f v bs r,
   wf_fmt f -> delim f -> encode f v = Ok bs -> decode f (bs ++ r) = Ok (v, r).
@@ -134,4 +140,24 @@ Example ex_strict :
   decode (Ext CtxUniversal) [0;10;0;4;0;4;0;29] = Err DecodeError /\      (* groups: inner 4 > outer *)
   decode (Ext CtxUniversal) [0;10;0;4;0;2;0] = Err DecodeError /\         (* truncated *)
   decode (Ext CtxUniversal) [0;10;0;4;0;2;0;29;9] = Ok (VTag 10 (VSome (vlist [VInt 29])), [9]).
+Proof. repeat split; vm_compute; reflexivity. Qed.
+
+(* key_share in ClientHello: absent list, empty list (asks for a HelloRetryRequest) and one share
+   are three different encodings, each decoding to itself *)
+Example ex_key_share_none_vs_empty :
+  encode (Ext CtxUniversal) (VTag 51 VNone) = Ok [0;51;0;0] /\
+  encode (Ext CtxUniversal) (VTag 51 (VSome VNil)) = Ok [0;51;0;2;0;0] /\
+  decode (Ext CtxUniversal) [0;51;0;2;0;0] = Ok (VTag 51 (VSome VNil), []) /\
+  decode (Ext CtxUniversal) [0;51;0;0] = Ok (VTag 51 VNone, []).
+Proof. repeat split; vm_compute; reflexivity. Qed.
+
+(* SSLv2 CLIENT-HELLO: a CIPHER-SPECS-LENGTH that is not a multiple of 3 is rejected even when every
+   announced byte is present; lengths exceeding the input and a missing byte are rejected *)
+Example ex_ssl2_hello_strict :
+  decode fmt_ClientHelloSSL2 ([1;3;1; 0;3; 0;0; 0;2] ++ [0;0;47] ++ [7;7]) =
+    Ok (VPair (VInt 1) (VPair (VInt 3) (VPair (VInt 1)
+        (VTag 3 (VTag 0 (VTag 2 (VPair (VBytes [0;0;47]) (VPair (VBytes []) (VBytes [7;7])))))))), []) /\
+  decode fmt_ClientHelloSSL2 ([1;3;1; 0;4; 0;0; 0;2] ++ [0;0;47;255] ++ [7;7]) = Err DecodeError /\
+  decode fmt_ClientHelloSSL2 ([1;3;1; 0;3; 0;0; 0;3] ++ [0;0;47] ++ [7;7]) = Err DecodeError /\
+  decode fmt_ClientHelloSSL2 ([1;3;1; 0;6; 0;0; 0;2] ++ [0;0;47] ++ [7;7]) = Err DecodeError.
 Proof. repeat split; vm_compute; reflexivity. Qed.
